@@ -80,7 +80,9 @@ def case_kfl(**p):
     k2 = k_raw
   vv = {layer.scale.ref(): s2, layer.kernel.ref(): k2}
   bsym = None
-  if p['omin'] is None and p['omax'] is None:
+  # whatever the optimizer may move is arbitrary after training: the bias is symbolic exactly when the built layer makes it
+  # trainable (the library keeps it fixed for bounded layers); otherwise it keeps its initial value
+  if layer.bias.trainable:
     bsym = sym.symbolic('b', (units,))
     vv[layer.bias.ref()] = bsym
   (out,) = tr_c.sym_run(x, var_values=vv)
